@@ -16,7 +16,14 @@ was left to the expected-tree oracle (F13, F16).  With the parser model (`Model/
   body's `parse_re` saw no top-level `|`, even if the body is an `Alt` from inside a group — fix
   F16), `C15_parse_empty_body`;
 * `C15_cond_number`, `C15_cond_quote`, `C15_cond_angle`, `C15_cond_expr`: which of the three kinds of
-  condition is read; `C15_group_dispatch`: `(?(` in `parse_group` leads here.
+  condition is read; `C15_group_dispatch`: `(?(` in `parse_group` leads here;
+* fix F21 — a back-reference *expression* as condition (`(?(\1)yes|no)`, `(?((?:\1))yes|no)`) is a
+  general condition, not the group test: the rewriting `Backref(g) ↦ BackrefExistsCondition(g)` is
+  done only for the three group-test spellings `(?(N)`, `(?('n')`, `(?(<n>)`, i.e. according to the
+  byte after `(?(` (`isGroupTest`).  `C15_innerCond_general`, `C15_innerCond_group_test`,
+  `C15_general_condition_kept` (whatever `parse_conditional` returns for a general condition
+  contains exactly the tree `parse_re` returned for it), `C15_general_backref_condition`,
+  `C15_general_backref_bare`.
 
 The section "Tests by evaluation" evaluates the whole model parser on representative concrete
 patterns in the kernel; those are tests, not the general claim.
@@ -48,10 +55,28 @@ def condBranches (child : Expr) (hasElse : Bool) : Res (Expr × Expr) :=
       | _ => pure (t, .alt rest)
   | c, _ => pure (c, .empty)
 
-/-- a back-reference as a condition is the test "has this group matched" -/
-def innerCond : Expr → Expr
-  | .backref g => .backrefExists g
-  | c => c
+/-- `is_group_test`: the byte after `(?(` starts one of the three group-test spellings `(?(N)`,
+    `(?('name')`, `(?(<name>)` -/
+def isGroupTest (b : Nat) : Bool := isDigit b || b == ch '\'' || b == ch '<'
+
+/-- in a group-test spelling (`gt`) the reference read as condition is the test "has this group
+    matched"; any other condition — also a back-reference expression — stays what it is (fix F21) -/
+def innerCond (gt : Bool) (condition : Expr) : Expr :=
+  match gt, condition with
+  | true, .backref g => .backrefExists g
+  | _, c => c
+
+/-- a general condition is never rewritten -/
+theorem C15_innerCond_general (c : Expr) : innerCond false c = c := rfl
+
+/-- in a group-test spelling a reference becomes the group test; anything else stays -/
+theorem C15_innerCond_group_test (g : Nat) : innerCond true (.backref g) = .backrefExists g := rfl
+
+theorem innerCond_of_not_backref (gt : Bool) {c : Expr} (h : ∀ g, c ≠ .backref g) :
+    innerCond gt c = c := by
+  cases gt
+  · rfl
+  · cases c <;> first | rfl | exact absurd rfl (h _)
 
 /-- `parse_conditional` in terms of its three sub-parses (the condition, the `)` after it, the
     body): the exact mirror of the function with the sub-results named -/
@@ -63,24 +88,26 @@ theorem C15_parse_forms (isAlnum : Char → Bool) {re : Bytes} {f : Nat} {st st1
     (hre : parseRe isAlnum f re st1 next2 d = .ok (end_, child, st2)) :
     parseConditional isAlnum (f + 1) re st ix d =
       if end_ = next2 then
-        match condition with
-        | .backref g =>
+        match isGroupTest b, condition with
+        | true, .backref g =>
           checkForCloseParen re st2.flags end_ >>= fun after => .ok (after, .backrefExists g, st2)
-        | _ => .err (.general .expectedConditional) end_
+        | _, _ => .err (.general .expectedConditional) end_
       else
         condBranches child st2.lastReHadAlt >>= fun br =>
         checkForCloseParen re st2.flags end_ >>= fun after =>
-        if !st2.lastReHadAlt && br.1.isEmpty then .ok (after, innerCond condition, st2)
-        else .ok (after, .cond (innerCond condition) br.1 br.2, st2) := by
+        if !st2.lastReHadAlt && br.1.isEmpty then .ok (after, innerCond (isGroupTest b) condition, st2)
+        else .ok (after, .cond (innerCond (isGroupTest b) condition) br.1 br.2, st2) := by
   have hlt := lt_size_of_get hb
   have hge : ¬ (ix ≥ re.size) := by omega
   unfold condPart at hcond
   rw [parseConditional]
   simp only [hge, ↓reduceIte, byteAt, hb, Res.ok_bind, hcond, hc1, hre]
+  unfold isGroupTest innerCond
   by_cases he : end_ = next2
   · subst he
     simp only [beq_self_eq_true, ↓reduceIte]
-    cases condition <;> rfl
+    generalize (isDigit b || b == ch '\'' || b == ch '<') = gt
+    cases gt <;> cases condition <;> rfl
   · have he' : (end_ == next2) = false := by simpa using he
     simp only [he', Bool.false_eq_true, ↓reduceIte, he]
     rfl
@@ -93,31 +120,37 @@ variable (isAlnum : Char → Bool) {re : Bytes} {f : Nat} {st st1 st2 : PState}
 
 /-- **`(?(N))`, `(?(<name>))`, `(?('name'))` — the bare group test**: when nothing stands between the
     `)` that closes the condition and the `)` that closes the group, and the condition is a group
-    reference, the result is `BackrefExistsCondition(g)` alone (fix F13: not a conditional with two
-    empty branches) -/
-theorem C15_parse_bare_test {g : Nat} (hb : re[ix]? = some b)
+    reference in one of the three group-test spellings, the result is `BackrefExistsCondition(g)`
+    alone (fix F13: not a conditional with two empty branches) -/
+theorem C15_parse_bare_test {g : Nat} (hb : re[ix]? = some b) (hgt : isGroupTest b = true)
     (hcond : condPart isAlnum f re st ix d b = .ok (next, .backref g, st1))
     (hc1 : checkForCloseParen re st1.flags next = .ok next2)
     (hre : parseRe isAlnum f re st1 next2 d = .ok (next2, child, st2))
     (hc2 : checkForCloseParen re st2.flags next2 = .ok after) :
     parseConditional isAlnum (f + 1) re st ix d = .ok (after, .backrefExists g, st2) := by
   rw [C15_parse_forms isAlnum hb hcond hc1 hre]
-  simp [hc2]
+  simp [hgt, hc2]
 
-/-- an expression as condition with no body is the error "expected conditional …" -/
+/-- an expression as condition with no body is the error "expected conditional …" — every general
+    condition (the byte after `(?(` does not start a group-test spelling), also one that is a
+    back-reference expression such as `(?(\\1))` (fix F21), and anything that is not a reference -/
 theorem C15_parse_bare_expr (hb : re[ix]? = some b)
     (hcond : condPart isAlnum f re st ix d b = .ok (next, condition, st1))
-    (hnb : ∀ g, condition ≠ .backref g)
+    (hnb : isGroupTest b = false ∨ ∀ g, condition ≠ .backref g)
     (hc1 : checkForCloseParen re st1.flags next = .ok next2)
     (hre : parseRe isAlnum f re st1 next2 d = .ok (next2, child, st2)) :
     parseConditional isAlnum (f + 1) re st ix d = .err (.general .expectedConditional) next2 := by
   rw [C15_parse_forms isAlnum hb hcond hc1 hre]
   simp only [↓reduceIte]
-  cases condition <;> first | rfl | exact absurd rfl (hnb _)
+  rcases hnb with hgt | hnb
+  · rw [hgt]
+  · cases isGroupTest b
+    · rfl
+    · cases condition <;> first | rfl | exact absurd rfl (hnb _)
 
 /-- **`(?(cond)yes|no)`** — the body is a top-level alternation of exactly two branches (the body's
     `parse_re` saw a `|`: `last_re_had_alt`): `Conditional { cond, yes, no }`, where a group
-    reference as `cond` becomes the group test.  Holds also when `yes` or `no` is empty:
+    reference as `cond` in a group-test spelling becomes the group test (only there: fix F21).  Holds also when `yes` or `no` is empty:
     `(?(1)|)` is a conditional with two empty branches (fix F13). -/
 theorem C15_parse_yes_no {y n : Expr} (hb : re[ix]? = some b)
     (hcond : condPart isAlnum f re st ix d b = .ok (next, condition, st1))
@@ -126,7 +159,7 @@ theorem C15_parse_yes_no {y n : Expr} (hb : re[ix]? = some b)
     (halt : st2.lastReHadAlt = true)
     (hc2 : checkForCloseParen re st2.flags end_ = .ok after) :
     parseConditional isAlnum (f + 1) re st ix d =
-      .ok (after, .cond (innerCond condition) y n, st2) := by
+      .ok (after, .cond (innerCond (isGroupTest b) condition) y n, st2) := by
   rw [C15_parse_forms isAlnum hb hcond hc1 hre]
   simp [hne, halt, condBranches, hc2]
 
@@ -139,7 +172,7 @@ theorem C15_parse_yes_alts {y n1 n2 : Expr} {ns : List Expr} (hb : re[ix]? = som
     (hne : end_ ≠ next2) (halt : st2.lastReHadAlt = true)
     (hc2 : checkForCloseParen re st2.flags end_ = .ok after) :
     parseConditional isAlnum (f + 1) re st ix d =
-      .ok (after, .cond (innerCond condition) y (.alt (n1 :: n2 :: ns)), st2) := by
+      .ok (after, .cond (innerCond (isGroupTest b) condition) y (.alt (n1 :: n2 :: ns)), st2) := by
   rw [C15_parse_forms isAlnum hb hcond hc1 hre]
   simp [hne, halt, condBranches, hc2]
 
@@ -154,7 +187,7 @@ theorem C15_parse_yes_only (hb : re[ix]? = some b)
     (halt : st2.lastReHadAlt = false) (hemp : child.isEmpty = false)
     (hc2 : checkForCloseParen re st2.flags end_ = .ok after) :
     parseConditional isAlnum (f + 1) re st ix d =
-      .ok (after, .cond (innerCond condition) child .empty, st2) := by
+      .ok (after, .cond (innerCond (isGroupTest b) condition) child .empty, st2) := by
   rw [C15_parse_forms isAlnum hb hcond hc1 hre]
   have hbr : condBranches child false = pure (child, .empty) := by
     unfold condBranches; split <;> first | rfl | (rename_i h; cases h)
@@ -168,7 +201,7 @@ theorem C15_parse_empty_body (hb : re[ix]? = some b)
     (hre : parseRe isAlnum f re st1 next2 d = .ok (end_, .empty, st2)) (hne : end_ ≠ next2)
     (halt : st2.lastReHadAlt = false)
     (hc2 : checkForCloseParen re st2.flags end_ = .ok after) :
-    parseConditional isAlnum (f + 1) re st ix d = .ok (after, innerCond condition, st2) := by
+    parseConditional isAlnum (f + 1) re st ix d = .ok (after, innerCond (isGroupTest b) condition, st2) := by
   rw [C15_parse_forms isAlnum hb hcond hc1 hre]
   simp [hne, halt, condBranches, hc2, Expr.isEmpty]
 
